@@ -182,9 +182,10 @@ func (r *runner) check(ops []opT, cf *lib.CasesFile, toCoq bool, family string) 
 func main() {
 	cfg := lib.ParseFlags()
 	res := lib.NewResult("C12")
-	res.Rule = "histories of construct/define/load/load-entry/get-entry/has/discover operations over loader trees (static or fresh root, " +
-		"parented, forked, type-set loaders): corpus, bounded-exhaustive over 4 tree shapes, seeded random to length 50; a history is " +
-		"non-trivial when it contains a redefinition (rejected, or an equal-value no-op) or a lookup that misses and later succeeds " +
+	res.Rule = "histories of construct/define/load/load-entry/get-entry/has/discover operations and px.AddTypes of freshly parsed type sets " +
+		"(nested sets, object members) and object types over loader trees (static or fresh root, parented, forked, type-set loaders): corpus, " +
+		"bounded-exhaustive over 7 tree shapes, seeded random to length 50; a history is non-trivial when it contains a redefinition " +
+		"(rejected, or an equal-value no-op), a px.AddTypes that ends with a redefinition error, or a lookup that misses and later succeeds " +
 		"through the same loader; distinct = distinct operation sequences"
 	rng := lib.NewRng(cfg.Seed)
 	if pf := os.Getenv("C12_PROF"); pf != "" {
